@@ -838,7 +838,11 @@ input::
                 if t is None:
                     t = cn.impose_at(*to.select_params(self,collapses[k]))
                 else:
-                    t = cn.impose_at(collapses[k],t)
+                    c = collapses[k]
+                    if hasattr(t, '__len__'): # select target for each index
+                        c = tuple(c)
+                        t = [t[i] for i in c]
+                    t = cn.impose_at(c,t)
                 conditions.append(t)
             elif k.startswith('CollapseAs'):
                 t = state[k]
